@@ -51,8 +51,17 @@ def _case(draw):
     return {"diff": diff, "comps": comps, "npts": npts, "extra": extra, "ops": ops}
 
 
+@st.composite
+def _flag_case(draw):
+    from vf import gen
+    from vf.prog import ALL_CLASSES
+    cls = draw(st.sampled_from(ALL_CLASSES))
+    return {"kind": "flag", "cls": cls, "params": draw(gen.class_params(cls)), "direct": draw(st.booleans()),
+            "with_smooth": draw(st.booleans()), "nq": draw(st.integers(2, 3))}
+
+
 def strategy(tier):
-    return _case()
+    return st.one_of(_case(), _case(), _case(), _case(), _case(), _flag_case())
 
 
 def fixed_cases(tier):
@@ -87,7 +96,47 @@ def comb_points(terms):
     return acc
 
 
+def check_flag(case, ctx):
+    """every shipped class: declared with reuse_gradient=True it is differentiable - one gradient and one sample per point,
+    and a sum with a smooth function is differentiable as well"""
+    import inspect
+    from PEPit import PEP, Point
+    from PEPit.functions import SmoothConvexFunction
+    cls = case["cls"]
+    klass = prog.get_class(cls)
+    accepts = "reuse_gradient" in inspect.signature(klass.__init__).parameters
+    ctx.label("flag:" + cls)
+    with prog.quiet():
+        it = prog.Interp()
+        pep = it.env.pep
+        kw = it.func_kwargs(cls, case["params"])
+        if accepts:
+            kw["reuse_gradient"] = True
+        f = klass(**kw) if case["direct"] else pep.declare_function(klass, **kw)
+        if accepts and f.reuse_gradient is not True:
+            ctx.fail("declared-differentiable-but-flag-false:%s" % cls, "%s(reuse_gradient=True).reuse_gradient is %r" % (cls, f.reuse_gradient))
+            return
+        if not f.reuse_gradient:
+            ctx.label("flag:class-is-not-differentiable-by-default")
+            return
+        ctx.nontrivial(True)
+        F = (f + pep.declare_function(SmoothConvexFunction, L=1.0)) if case["with_smooth"] else f
+        x = Point()
+        got = [F.gradient(x) for _ in range(case["nq"])]
+        F.oracle(x)
+    for g in got[1:]:
+        if not pfun_equal(g, got[0]):
+            ctx.fail("two-gradients-for-differentiable:class:%s" % cls, "%s declared differentiable returns two different gradients "
+                     "at one point%s" % (cls, " (through a sum with a smooth function)" if case["with_smooth"] else ""))
+            return
+    n_at_x = sum(1 for (xx, _g, _v) in F.list_of_points if pfun_equal(xx, x))
+    if n_at_x != 1:
+        ctx.fail("several-samples-at-one-point:class:%s" % cls, "%d samples recorded at one point of a differentiable %s" % (n_at_x, cls))
+
+
 def check_case(case, ctx):
+    if case.get("kind") == "flag":
+        return check_flag(case, ctx)
     from PEPit import PEP, Point, Expression
     from PEPit.functions import SmoothConvexFunction, ConvexFunction
     import PEPit.primitive_steps as PS
